@@ -158,8 +158,10 @@ inline Result expand(const Rule &r, int64_t start, bool date_only, size_t limit,
 		if (++scanned > max_periods) { res.gave_up = true; return res; }
 		switch (r.freq) {
 		case YEARLY: {
-			int Y = s0.y + (int)(k * iv);
-			period_start = civil::to_ms(Y, 1, 1);
+			// with BYWEEKNO the periods are ISO week-years (the weeks of a year, RFC 5545 p.42), counted from the one DTSTART lies in;
+			// such a period may begin up to three days before 1 January
+			int Y = (r.byweekno.empty() ? s0.y : (int)civil::iso_week(s0.y, s0.m, s0.d).y) + (int)(k * iv);
+			period_start = civil::to_ms(Y, 1, 1) - (r.byweekno.empty() ? 0 : 7 * MS_DAY);
 			if (period_start > horizon) { res.complete = true; return res; }
 			int64_t j1 = civil::days_from_civil(Y, 1, 1), j2 = civil::days_from_civil(Y, 12, 31);
 			int ny = (int)(j2 - j1 + 1);
